@@ -136,3 +136,240 @@ def sources():
 if __name__ == '__main__':
     for k, v in sources().items():
         print(k, len(v), v[len(v) // 2])
+
+
+# ---------------------------------------------------------------------------------------------------------------------
+# every node class x every combination of 0/1/2/3 elements in its list fields and present/absent optional fields,
+# built with CPython's ast constructors, unparsed by CPython, kept if the re-parse contains a node of that class with
+# exactly these field sizes (so every (class, field) -> (class, field') transition of NEXT/PREV is realised by a program)
+
+def _doc_fields(cls):
+    """[(name, base type, kind)] from CPython's class docstring; kind in one|opt|list"""
+    d = cls.__doc__ or ''
+    if '(' not in d:
+        return []
+    out = []
+    for part in d[d.index('(') + 1:d.rindex(')')].split(','):
+        if len(part.split()) != 2:
+            return []
+        typ, name = part.split()
+        out.append((name, typ.rstrip('?*'), 'list' if typ.endswith('*') else 'opt' if typ.endswith('?') else 'one'))
+    return out
+
+
+class _Fill:
+    def __init__(self):
+        self.n = 0
+
+    def name(self, pre='v'):
+        self.n += 1
+        return f'{pre}{self.n}'
+
+    def make(self, typ, cls=None, field=None, j=0):
+        N = lambda: ast.Name(self.name(), ast.Load())
+        if typ == 'expr':
+            if cls is ast.JoinedStr:
+                return ast.FormattedValue(N(), -1, None) if j % 2 == 0 else ast.Constant('s')
+            if cls in (ast.Global, ast.Nonlocal):
+                return N()
+            return N()
+        if typ == 'stmt':
+            return ast.Expr(N())
+        if typ == 'expr_context':
+            return ast.Load()
+        if typ == 'identifier':
+            return self.name('n')
+        if typ == 'int':
+            return 0 if field != 'conversion' else -1
+        if typ == 'string':
+            return None
+        if typ == 'constant':
+            return 1
+        if typ == 'arguments':
+            return ast.arguments([], [ast.arg(self.name('a'), None)], None, [], [], None, [])
+        if typ == 'arg':
+            return ast.arg(self.name('a'), None)
+        if typ == 'keyword':
+            return ast.keyword(self.name('k'), N())
+        if typ == 'alias':
+            return ast.alias(self.name('m'), None)
+        if typ == 'withitem':
+            return ast.withitem(N(), None)
+        if typ == 'match_case':
+            return ast.match_case(ast.MatchAs(None, self.name('p')), None, [ast.Expr(N())])
+        if typ == 'excepthandler':
+            return ast.ExceptHandler(N(), None, [ast.Expr(N())])
+        if typ == 'comprehension':
+            return ast.comprehension(ast.Name(self.name(), ast.Store()), N(), [], 0)
+        if typ == 'pattern':
+            return ast.MatchAs(None, self.name('p'))
+        if typ == 'type_param':
+            return ast.TypeVar(self.name('T'), None)
+        if typ == 'operator':
+            return ast.Add()
+        if typ == 'boolop':
+            return ast.And()
+        if typ == 'unaryop':
+            return ast.Not()
+        if typ == 'cmpop':
+            return ast.Lt()
+        raise KeyError(typ)
+
+
+_NON_AST = ('identifier', 'int', 'string', 'constant', 'type_ignore')
+
+
+def _wrap(node, fill):
+    """a Module containing `node` in a syntactically suitable place"""
+    N = lambda: ast.Name(fill.name(), ast.Load())
+    P = [ast.Expr(N())]
+    if isinstance(node, ast.Module):
+        return node
+    if isinstance(node, ast.stmt):
+        return ast.Module([node], [])
+    if isinstance(node, ast.Slice):
+        node = ast.Subscript(N(), node, ast.Load())
+    if isinstance(node, ast.FormattedValue):
+        node = ast.JoinedStr([node])
+    if isinstance(node, ast.expr):
+        return ast.Module([ast.Expr(node)], [])
+    if isinstance(node, ast.MatchStar):
+        node = ast.MatchSequence([node])
+    if isinstance(node, ast.pattern):
+        node = ast.match_case(node, None, P)
+    if isinstance(node, ast.match_case):
+        return ast.Module([ast.Match(N(), [node])], [])
+    if isinstance(node, ast.comprehension):
+        return ast.Module([ast.Expr(ast.ListComp(N(), [node]))], [])
+    if isinstance(node, ast.ExceptHandler):
+        return ast.Module([ast.Try(P, [node], [], [])], [])
+    if isinstance(node, ast.arg):
+        node = ast.arguments([], [node], None, [], [], None, [])
+    if isinstance(node, ast.arguments):
+        return ast.Module([ast.FunctionDef('f', node, P, [], None, None, [])], [])
+    if isinstance(node, ast.keyword):
+        return ast.Module([ast.Expr(ast.Call(N(), [], [node]))], [])
+    if isinstance(node, ast.alias):
+        return ast.Module([ast.Import([node])], [])
+    if isinstance(node, ast.withitem):
+        return ast.Module([ast.With([node], P)], [])
+    if isinstance(node, ast.type_param):
+        return ast.Module([ast.TypeAlias(ast.Name('X', ast.Store()), [node], N())], [])
+    return None
+
+
+def _sizes(node, fields):
+    out = []
+    for name, typ, kind in fields:
+        if typ in _NON_AST and not (kind == 'list' and typ == 'identifier'):
+            continue
+        v = getattr(node, name, None)
+        out.append(len(v) if kind == 'list' else (0 if v is None else 1))
+    return out
+
+
+def generic_sources():
+    """{class name: [source]}"""
+    import warnings
+    out = {}
+    skip = (ast.Interactive, ast.Expression, ast.FunctionType, ast.TypeIgnore, ast.Call, ast.arguments)   # Call/arguments: dedicated generators above
+    classes = [c for n, c in sorted(vars(ast).items()) if isinstance(c, type) and issubclass(c, ast.AST) and c.__module__ == 'ast'
+               and _doc_fields(c) and c not in skip and not c.__subclasses__()]
+    for cls in classes:
+        fields = _doc_fields(cls)
+        if getattr(cls, '_fields', ()) and set(f for f, _, _ in fields) != set(cls._fields):
+            continue            # deprecated aliases (Num, Str, ...)
+        lists = [f for f in fields if f[2] == 'list' and (f[1] not in _NON_AST or f[1] == 'identifier')]
+        sizes = (0, 1, 2, 3) if len(lists) <= 4 else (0, 1, 3)
+        axes = []
+        for name, typ, kind in fields:
+            if kind == 'list' and (typ not in _NON_AST or typ == 'identifier'):
+                axes.append(sizes)
+            elif kind == 'opt' and typ not in _NON_AST:
+                axes.append((0, 1))
+            elif kind == 'opt' and typ == 'identifier':
+                axes.append((0, 1))
+            else:
+                axes.append((1,))
+        srcs = []
+        for combo in itertools.product(*axes):
+            fill = _Fill()
+            kw = {}
+            try:
+                for (name, typ, kind), c in zip(fields, combo):
+                    if kind == 'list':
+                        kw[name] = [fill.make(typ, cls, name, j) for j in range(c)] if typ != 'type_ignore' else []
+                    elif kind == 'opt':
+                        kw[name] = fill.make(typ, cls, name) if c and typ not in ('string', 'int') else None
+                    else:
+                        kw[name] = fill.make(typ, cls, name)
+                node = cls(**kw)
+                mod = _wrap(node, fill)
+                if mod is None:
+                    break
+                with warnings.catch_warnings():
+                    warnings.simplefilter('ignore')
+                    src = ast.unparse(ast.fix_missing_locations(mod))
+                    tree = ast.parse(src)
+            except Exception:
+                continue
+            want = _sizes(node, fields)
+            if any(isinstance(n, cls) and _sizes(n, fields) == want for n in ast.walk(tree)):
+                srcs.append(src)
+        if srcs:
+            out[cls.__name__] = list(dict.fromkeys(srcs))
+    return out
+
+
+def extra_sources():
+    """hand-written families the product above does not reach: elif chains, nested handlers, decorated generic defs"""
+    out = []
+    for depth in range(4):
+        for els in (False, True):
+            s = 'if c0:\n    a0\n' + ''.join(f'elif c{i}:\n    a{i}\n    b{i}\n' for i in range(1, depth + 1)) + ('else:\n    z\n' if els else '')
+            out.append(s)
+    for star in ('', '*'):
+        for nh in range(4):
+            for els in (False, True):
+                for fin in (False, True):
+                    if not nh and (els or not fin):
+                        continue
+                    s = 'try:\n    a\n    b\n' + ''.join(f'except{star} E{i} as e{i}:\n    h{i}\n    g{i}\n' for i in range(nh)) \
+                        + ('else:\n    o1\n    o2\n' if els else '') + ('finally:\n    f1\n    f2\n' if fin else '')
+                    out.append(s)
+    for nd in range(3):
+        for ntp in range(3):
+            decos = ''.join(f'@d{i}\n' for i in range(nd))
+            tps = '[' + ', '.join(['T: int', '*Ts', '**P'][:ntp]) + ']' if ntp else ''
+            out.append(f'{decos}def f{tps}(a, b=1) -> r:\n    x\n    y\n')
+            out.append(f'{decos}async def f{tps}():\n    x\n')
+            out.append(f'{decos}class C{tps}(B, *S, k=v, **kw):\n    x\n    y\n')
+    for ng in range(1, 4):
+        for ni in range(4):
+            gens = ' '.join(f'for t{g} in i{g} ' + ' '.join(f'if c{g}{j}' for j in range(ni)) for g in range(ng))
+            out += [f'x = [e {gens}]', f'x = {{k: v {gens}}}', f'x = (e {gens})', f'x = {{e {gens}}}']
+    for n in range(1, 4):
+        out.append('with ' + ', '.join(f'c{i} as t{i}' if i % 2 else f'c{i}' for i in range(n)) + ':\n    x\n')
+        out.append('async def f():\n    async with ' + ', '.join(f'c{i} as t{i}' for i in range(n)) + ':\n        x\n')
+    for n in range(4):
+        out.append('x = f"' + ''.join(f'{{v{i}!r:>{{w{i}}}}} t{i} ' for i in range(n)) + '"')
+    ok = []
+    for s in out:
+        try:
+            ast.parse(s)
+            ok.append(s)
+        except SyntaxError:
+            pass
+    return ok
+
+
+_CACHE2 = None
+
+
+def transition_sources():
+    """{family: [source]} — generic product + hand-written families"""
+    global _CACHE2
+    if _CACHE2 is None:
+        _CACHE2 = generic_sources()
+        _CACHE2['families'] = extra_sources()
+    return _CACHE2
